@@ -269,6 +269,8 @@ pub struct Layout {
     pub this_module_base: u64,
     pub bss_base: u64,
     pub text_base: u64,
+    /// kernel modules only: `.gnu.linkonce.this_module` precedes `.modinfo` in the section header table
+    pub lkm_swapped: bool,
 }
 
 pub const RODATA_LEN: u64 = 0x200;
@@ -280,6 +282,9 @@ const FN_SLOT: u64 = 0x4000;
 
 impl Layout {
     pub fn new(kind: ElfKind) -> Layout {
+        Layout::new_with(kind, false)
+    }
+    pub fn new_with(kind: ElfKind, lkm_swapped: bool) -> Layout {
         let image_base = 0x0010_0000u64;
         match kind {
             ElfKind::Exec | ElfKind::Pie => Layout {
@@ -292,16 +297,25 @@ impl Layout {
                 this_module_base: 0,
                 bss_base: image_base + 0x4000 + DATA_LEN,
                 text_base: image_base + 0x10000,
+                lkm_swapped: false,
             },
             ElfKind::Lkm => {
                 // sections are concatenated in section-header order, each aligned to sh_addralign, starting at 0,
                 // then shifted by the image base chosen by the disassembler
                 let al = |x: u64, a: u64| x.div_ceil(a) * a;
                 let rodata = al(0, 16);
-                let modinfo = al(rodata + RODATA_LEN, 8);
-                let data = al(modinfo + MODINFO_LEN, 8);
-                let this_module = al(data + DATA_LEN, 64);
-                let bss = al(this_module + THIS_MODULE_LEN, 8);
+                let (modinfo, data, this_module, bss);
+                if lkm_swapped {
+                    this_module = al(rodata + RODATA_LEN, 64);
+                    data = al(this_module + THIS_MODULE_LEN, 8);
+                    modinfo = al(data + DATA_LEN, 8);
+                    bss = al(modinfo + MODINFO_LEN, 8);
+                } else {
+                    modinfo = al(rodata + RODATA_LEN, 8);
+                    data = al(modinfo + MODINFO_LEN, 8);
+                    this_module = al(data + DATA_LEN, 64);
+                    bss = al(this_module + THIS_MODULE_LEN, 8);
+                }
                 let text = al(bss + BSS_LEN, 16);
                 Layout {
                     kind,
@@ -313,6 +327,7 @@ impl Layout {
                     this_module_base: image_base + this_module,
                     bss_base: image_base + bss,
                     text_base: image_base + text,
+                    lkm_swapped,
                 }
             }
         }
@@ -1764,7 +1779,7 @@ fn extern_symbol_json(lay: &Layout, idx: usize, e: &Ext, rng: &mut Rng) -> Value
 
 /// Generate a complete input (P-Code JSON + ELF bytes).
 pub fn gen_input(rng: &mut Rng, opts: &GenOpts) -> Input {
-    let lay = Layout::new(opts.kind);
+    let lay = Layout::new_with(opts.kind, opts.kind == ElfKind::Lkm && rng.chance(1, 3));
     let (ro_bytes, ro_offs) = rodata_bytes();
     let ext: &'static [Ext] = if opts.kind == ElfKind::Lkm { EXT_LKM } else { EXT_USER };
     let rng_dup = rng.chance(1, 3);
@@ -2057,14 +2072,18 @@ pub fn build_elf(lay: &Layout, rodata: &[u8], data: &[u8], text_len: u64, debug_
     let text: Vec<u8> = (0..text_len).map(|i| (mix(i, 0x7e) & 0xff) as u8).collect();
     let mut secs: Vec<Sec> = Vec::new();
     secs.push(Sec { name: ".rodata", sh_type: 1, flags: SHF_ALLOC, addr: lay.rodata_base - delta, bytes: rodata.to_vec(), size: rodata.len() as u64, align: 16 });
-    if lay.kind == ElfKind::Lkm {
+    let modinfo_sec = || {
         let mut m = b"license=GPL\0author=vmon\0name=gen\0".to_vec();
         m.resize(MODINFO_LEN as usize, 0);
-        secs.push(Sec { name: ".modinfo", sh_type: 1, flags: SHF_ALLOC, addr: 0, bytes: m, size: MODINFO_LEN, align: 8 });
+        Sec { name: ".modinfo", sh_type: 1, flags: SHF_ALLOC, addr: 0, bytes: m, size: MODINFO_LEN, align: 8 }
+    };
+    let this_module_sec = || Sec { name: ".gnu.linkonce.this_module", sh_type: 1, flags: SHF_ALLOC | SHF_WRITE, addr: 0, bytes: vec![0; THIS_MODULE_LEN as usize], size: THIS_MODULE_LEN, align: 64 };
+    if lay.kind == ElfKind::Lkm {
+        secs.push(if lay.lkm_swapped { this_module_sec() } else { modinfo_sec() });
     }
     secs.push(Sec { name: ".data", sh_type: 1, flags: SHF_ALLOC | SHF_WRITE, addr: lay.data_base - delta, bytes: data.to_vec(), size: data.len() as u64, align: 8 });
     if lay.kind == ElfKind::Lkm {
-        secs.push(Sec { name: ".gnu.linkonce.this_module", sh_type: 1, flags: SHF_ALLOC | SHF_WRITE, addr: 0, bytes: vec![0; THIS_MODULE_LEN as usize], size: THIS_MODULE_LEN, align: 64 });
+        secs.push(if lay.lkm_swapped { modinfo_sec() } else { this_module_sec() });
     }
     secs.push(Sec { name: ".bss", sh_type: 8, flags: SHF_ALLOC | SHF_WRITE, addr: lay.bss_base - delta, bytes: Vec::new(), size: BSS_LEN, align: 8 });
     secs.push(Sec { name: ".text", sh_type: 1, flags: SHF_ALLOC | SHF_EXEC, addr: lay.text_base - delta, bytes: text, size: text_len, align: 16 });
